@@ -38,10 +38,9 @@ use libp2p::request_response::OutboundFailure;
 use lumina_node::blockstore::InMemoryBlockstore;
 use lumina_node::events::{EventSubscriber, NodeEvent, TryRecvError};
 use lumina_node::node::{HeaderExError, P2pError, PeerTrackerInfo};
-use lumina_node::store::{RedbStore, Store};
+
 use lumina_node::verif::{self, Events, P2pCommand, hx};
 use prost::Message;
-use redb::Database;
 use tendermint_proto::Protobuf;
 use tokio::sync::{mpsc, oneshot};
 
@@ -51,7 +50,7 @@ use crate::seams::disk::{Image, SimDisk};
 use crate::seams::rec_store::{Call, RecStore, Ret, StoreObserver};
 use crate::seams::squares::{DataChain, DataChainParams};
 use crate::seams::store_model::{Model, ranges_to_set};
-use crate::worlds::store::battery;
+use crate::worlds::store::{battery, open_redb};
 
 pub struct NodeWorld;
 
@@ -580,13 +579,6 @@ struct PendingSample {
 
 // ------------------------------------------------------------------------------------ the run
 
-async fn open_redb(disk: &SimDisk) -> Result<(Arc<RedbStore>, Arc<Database>), String> {
-    let db = Database::builder().create_with_backend(disk.clone()).map_err(|e| format!("redb open: {e}"))?;
-    let db = Arc::new(db);
-    let s = RedbStore::new(db.clone()).await.map_err(|e| format!("RedbStore::new: {e}"))?;
-    Ok((Arc::new(s), db))
-}
-
 async fn run_node(ctx: &Arc<RunCtx>) {
     verif::set_inline_blocking(true);
     let thorough = ctx.tier == Tier::Thorough;
@@ -671,11 +663,11 @@ async fn run_node(ctx: &Arc<RunCtx>) {
     while !finished {
         // ================================================================ (re)start the process
         let disk = SimDisk::from_image(ctx, image.clone());
-        let (store, _db) = match open_redb(&disk).await {
-            Ok(x) => x,
+        let (store, _db) = match open_redb(ctx, &disk).await {
+            Ok((s, db)) => (Arc::new(s), db),
             Err(e) => {
                 ctx.oracle("C22.reopen_succeeds");
-                ctx.violation("C22", "reopen_succeeds", if epoch == 0 { "first_open" } else { "after_power_loss" },
+                ctx.violation("C22", "reopen_succeeds", &e.key(if epoch == 0 { "first_open" } else { "after_crash" }),
                     format!("epoch {epoch}: the store does not open after a power loss: {e}"));
                 return;
             }
